@@ -259,12 +259,19 @@ def world_for(prop, tier, seed, idx):
         w["data"]["seed"] = r.randrange(2**31)
     box = _box(b["model"])
     hint = w.get("steps", 6) if b["loop"] == "vi" else 6
+    if prop == "C12" and idx % K_BUCKET[prop] == K_BUCKET[prop] - 1 and b["loss"] != "contrastive":
+        # the loops' own defaults (adam, MaximumLikelihoodLoss): nothing is observed per step,
+        # only the end-state clauses apply
+        w["use_defaults"] = True
+        w["lr"] = 0.05
     if prop == "C12":
         w["faults"] = _faults(r, hint, box, ["opt_teleport", "opt_teleport", "opt_teleport", "grad_huge", "opt_signflip", "opt_zero", "grad_nan", "grad_inf"])
     elif prop in ("C11", "C09"):
         w["faults"] = _faults(r, hint, box, ["opt_teleport", "opt_teleport", "opt_teleport", "opt_teleport", "grad_huge", "opt_signflip"], p_none=0.2)
     else:
         w["faults"] = []
+        if r.random() < 0.35:  # perturbed parameters: one early teleport of modest size
+            w["faults"] = [{"step": r.choice([0, 1, 2]), "kind": "opt_teleport", "seed": r.randrange(2**30), "scale": r.choice([0.5, 2.0])}]
         w["max_epochs"] = r.choice([1, 2, 2, 3])
         w["data"]["fault_rows"] = _fault_rows(r, w)
         if r.random() < 0.3:
